@@ -174,6 +174,17 @@ class Validator:
         if isinstance(e, (ast.Tuple, ast.List)):
             vs = [self.val(x, cell, names) for x in e.elts]
             return U if any(v is U for v in vs) else tuple(vs)
+        if isinstance(e, ast.Call) and ast.unparse(e.func) in ("str", "repr") and len(e.args) == 1:
+            b = e.args[0]
+            tgt = None
+            if isinstance(b, ast.Attribute) and b.attr == "__class__":
+                tgt = ast.unparse(b.value)
+            elif isinstance(b, ast.Call) and ast.unparse(b.func) == "type" and len(b.args) == 1:
+                tgt = ast.unparse(b.args[0])
+            if tgt in (names["datafit"], names["penalty"]):
+                cls = cell["datafit"] if tgt == names["datafit"] else cell["penalty"]
+                return U if cls is None else f"<class '{cls.module.name}.{cls.name}'>"
+            return U
         if isinstance(e, ast.Attribute) and e.attr == "__name__":
             b = e.value
             tgt = None
